@@ -281,6 +281,8 @@ def run_op(platform, opname, pid=PID, one=None, from_=None, state="live", pid0_l
             p._name = CACHED
             p._proc._name = CACHED
         r.cached = p._proc._name
+        if hasattr(p._proc, "_ppid") and opname not in ("ppid", "L:ppid"):
+            p._proc._ppid = 1           # what an earlier ppid() leaves behind on the layers that remember it
         w.state = state
         w.stub.arm(one=one, from_=from_)
         r.exc = None
@@ -406,7 +408,11 @@ def describe(r):
         extra = f" pid={e.pid!r} name={e.name!r}"
     if r.kind == "OSError":
         extra = f" errno={e.errno} winerror={getattr(e, 'winerror', None)!r} type={type(e).__name__}"
-    return f"{r.kind}({str(e)[:100]}){extra}"
+    try:
+        text = str(e)[:100]
+    except Exception as e2:  # noqa: BLE001  (a psutil exception that cannot even be printed: judged elsewhere)
+        text = f"<str() raised {e2!r}>"
+    return f"{r.kind}({text}){extra}"
 
 
 def shape(v):
@@ -502,7 +508,10 @@ def judge_fault(platform, case, r, clean):
             else:
                 allowed.add(raw)
         if platform == "netbsd" and op in ("cmdline", "L:cmdline") and f["errno"] == E.EINVAL:
-            allowed.add("value")        # documented: cmdline() ignores EINVAL of a live process -> []
+            if state in ("gone", "zombie"):
+                allowed.add("NSP")      # ... and reports the process gone / a zombie when that is what the second look finds
+            else:
+                allowed.add("value")    # documented: cmdline() ignores EINVAL of a live process -> []
     # fail-one: documented fall-backs may answer with a value.  Permission errors and procfs-ENOENT have many
     # (Windows proc_info, SunOS uids()/gids(), SunOS "link not resolvable" handlers); for ESRCH and unrelated
     # errnos only the handlers named here are deliberate, everything else must still raise.
@@ -521,6 +530,14 @@ def judge_fault(platform, case, r, clean):
         allowed.add("value")            # wait() answers None / TimeoutExpired for a pid that is not ours
 
     kind = r.kind
+    if kind in ("NoSuchProcess", "ZombieProcess", "AccessDenied"):
+        # the exception itself is well formed: it can be printed / logged, and its message is a message
+        try:
+            str(r.exc), repr(r.exc)
+            if r.exc.msg is not None and not isinstance(r.exc.msg, str):
+                raise TypeError(f"msg={r.exc.msg!r}")
+        except Exception as e:  # noqa: BLE001
+            v("malformed_exception", f"{kind} whose msg is {getattr(r.exc, 'msg', None)!r}: str()/repr() -> {e!r}")
     if mode == "pair" and len(r.fired) == 2 and not pid0rule:
         # the method went on after the first error (it asked the kernel again): that error was tolerated, and what ends the
         # call is the second one - a first error that resurfaces hides what really happened (e.g. the process exiting
@@ -702,6 +719,12 @@ def fault_cases(platform, opname, pid, n, tier, pid0_listed=True):
                 for zc in zcodes:        # once per native status code this kernel uses for a zombie
                     out.append(dict(base, mode="one", i=i, faults=[f], state="zombie", zcode=zc))
                     out.append(dict(base, mode="from", i=i, faults=[f], state="zombie", zcode=zc))
+    if platform == "netbsd" and opname in ("cmdline", "L:cmdline") and pid != 0:
+        # NetBSD's sysctl answers EINVAL for the argument vector of a process that is going / gone: the layer looks again
+        for i in range(n):
+            for st in ("gone", "zombie"):
+                for zc in (zcodes if st == "zombie" else [None]):
+                    out.append(dict(base, mode="one", i=i, faults=[dict(errno=E.EINVAL)], state=st, **({"zcode": zc} if zc else {})))
     for i in range(n):
         for j in range(i + 1, n):
             for fa in pair_faults:
